@@ -16,8 +16,12 @@ Definition byte_dec (b : byte) : str :=
   else if N.ltb n 100 then [digit_byte (n / 10); digit_byte (n mod 10)]
   else [digit_byte (n / 100); digit_byte ((n / 10) mod 10); digit_byte (n mod 10)].
 
-(* fmt.Sprintf("%v", []byte{1,2,3}) = "[1 2 3]" *)
-Definition render_bytes (b : str) : str := bs "[" ++ join (bs " ") (map byte_dec b) ++ bs "]".
+(* fmt.Sprintf("%x", []byte{1,2,255}) = "0102ff": the order of the strings is the order of the byte sequences (fix cf426d8;
+   it was the %v rendering "[1 2 255]" before) *)
+Definition hex_digit (d : N) : byte :=
+  match Byte.of_N (if N.ltb d 10 then 48 + d else 87 + d) with Some b => b | None => "0"%byte end.
+Definition byte_hex (b : byte) : str := let n := b2n b in [hex_digit (n / 16); hex_digit (n mod 16)].
+Definition render_bytes (b : str) : str := List.concat (map byte_hex b).
 
 (* getGoValue + "%v": the attribute must have the declared type; only S, N, B are key types *)
 Definition go_value (v : av) (typ : str) : option str :=
